@@ -49,3 +49,68 @@ Proof.
   - intros q Hq. exact (sp_ref_min g (cn_name t) r0 p q Hsp Hq).
 Qed.
 Print Assumptions C14_hw_shortest.
+
+(* Part 4: the oracle the generator really uses.  Paths.sp_nx mirrors networkx's bidirectional breadth-first search
+   line by line (it is what makes the model's netlists identical to floogen's, which the harness checks field by
+   field).  For every directed graph whose edge ends are nodes and every destination node: what sp_nx returns is a
+   walk from s to t, no walk from s to t is shorter, and sp_nx finds a path whenever one exists.  No bound on the
+   graph.  The hypotheses of the routing theorems about "an oracle that returns shortest paths" are hence THEOREMS
+   for the generator's own path choice, tie-breaking included. *)
+From FV Require Import Paths NxProofs NxHw Side WireProofs.
+Theorem C14_networkx_mirror_returns_shortest_paths :
+  forall (g : graph),
+    (forall e, In e (g_edges g) -> has_node g (e_src e) = true /\ has_node g (e_dst e) = true) ->
+    forall t, has_node g t = true ->
+    (forall s p, sp_nx g s t = Some p ->
+       path_to_t (E g) t p s /\ (forall q, path_to_t (E g) t q s -> (length p <= length q)%nat)) /\
+    (forall s q, path_to_t (E g) t q s -> sp_nx g s t <> None).
+Proof.
+  intros g Hends t Ht. split.
+  - intros s p H. destruct (sp_nx_spec g Hends t Ht s p H) as (A & B & _). split; assumption.
+  - intros s q Hq. exact (sp_nx_complete g Hends t Ht s q Hq).
+Qed.
+Print Assumptions C14_networkx_mirror_returns_shortest_paths.
+
+(* Part 5: on the hardware model with the generator's own oracle, every hypothesis decidable: the routers traversed are
+   those of a path no walk of the graph undercuts. *)
+Theorem C14_hw_shortest_nx :
+  forall (d : desc) (g : graph) (c : compiled) (ri : rinfo) (n : netlist) (t : cni) (id : Z) (nt : net),
+    net_ok d nt ->
+    build d = Ok g -> compile d g = Ok c -> gen_routing_info sp_nx c = Ok ri -> emit c ri = Ok n ->
+    d_algo d = ID -> In t (c_nis c) -> id_num (cn_id t) = Ok id ->
+    transitb sp_nx c t = true ->
+    names_sepb g nt = true -> single_attachb g c = true -> links_typedb g c = true -> degrees_fitb c = true ->
+    forall s0 p, In s0 (c_nis c) -> cn_name s0 <> cn_name t -> is_rtb c (snd (attach nt s0)) = true ->
+      sp_nx g (snd (attach nt s0)) (cn_name t) = Some p ->
+      let tr := send n nt (emit_ni d (ri_offset ri) s0) (HId id) in
+      t_out tr = Delivered (cn_name t) (HId id) /\ S (length (t_rts tr)) = length p /\
+      forall q, path_to_t (E g) (cn_name t) q (snd (attach nt s0)) -> (length p <= length q)%nat.
+Proof. exact hw_send_nx. Qed.
+Print Assumptions C14_hw_shortest_nx.
+
+(* source routing: the routers traversed are the inner nodes of a path no walk of the graph undercuts *)
+Theorem C14_hw_src_shortest_nx :
+  forall (d : desc) (g : graph) (c : compiled) (ri : rinfo) (n : netlist) (t : cni) (nt : net),
+    net_ok d nt ->
+    build d = Ok g -> compile d g = Ok c -> gen_routing_info sp_nx c = Ok ri -> emit c ri = Ok n ->
+    d_algo d = SRC -> In t (c_nis c) ->
+    names_sepb g nt = true -> single_attachb g c = true -> links_typedb g c = true ->
+    forall s0 id ps p, In s0 (c_nis c) -> gen_route sp_nx c s0 t = Ok (id, Some ps) ->
+      sp_nx g (cn_name s0) (cn_name t) = Some p -> snd (attach nt s0) = hd "" (tl p) ->
+      let tr := send n nt (emit_ni d (ri_offset ri) s0) (hdr_of_word n (word_value ps)) in
+      t_out tr = Delivered (cn_name t) (HRoute 0) /\ length (t_rts tr) = length ps /\ (2 + length ps = length p)%nat /\
+      forall q, path_to_t (E g) (cn_name t) q (cn_name s0) -> (length p <= length q)%nat.
+Proof. exact hw_src_send_nx. Qed.
+Print Assumptions C14_hw_src_shortest_nx.
+
+From FV Require Import Examples.
+Example C14_nx_nonvacuous :
+  forallb (fun d =>
+    match (do g <- build d; do c <- compile d g; Ok (g, c)) with
+    | Ok (g, c) =>
+        forallb (transitb sp_nx c) (c_nis c) && names_sepb g Req && names_sepb g Rsp &&
+        single_attachb g c && links_typedb g c && degrees_fitb c &&
+        forallb (fun s0 => is_rtb c (snd (attach Req s0)) && is_rtb c (snd (attach Rsp s0))) (c_nis c)
+    | Err _ => false
+    end) [ex_star ID; ex_tree ID; ex_mesh ID] = true.
+Proof. vm_compute. reflexivity. Qed.
